@@ -172,6 +172,10 @@ type Entry struct {
 	Reconstruct func(row parquet.Row) (ref.V, error)
 	// ReadAll reads the file through GenericReader[T].Read with the batch size.
 	ReadAll func(data []byte, batch int) (any, error)
+	// ReuseWrite writes a prior file on a GenericWriter[T] (closed, abandoned
+	// without Close, or failing at sink offset failAt), then Reset(s) it onto a
+	// new buffer and writes rows; it returns the second file.
+	ReuseWrite func(prior any, priorOps []gen.Op, priorMode string, failAt int, rows any, opts []parquet.WriterOption, ops []gen.Op) ([]byte, error)
 	// ReadFunc reads the file through parquet.Read[T].
 	ReadFunc func(data []byte) (any, error)
 	// ReaderRead reads the file row by row through Reader.Read(&T).
@@ -274,6 +278,58 @@ func register[T any](name string) {
 			return &WriteError{fmt.Errorf("Close: %w", err)}
 		}
 		return nil
+	}
+	e.ReuseWrite = func(prior any, priorOps []gen.Op, priorMode string, failAt int, rows any, opts []parquet.WriterOption, ops []gen.Op) ([]byte, error) {
+		var first bytes.Buffer
+		var sink io.Writer = &first
+		if priorMode == "failed" {
+			sink = &FailingWriter{W: &first, Limit: failAt}
+		}
+		gw := parquet.NewGenericWriter[T](sink, opts...)
+		drive := func(rs []T, ops []gen.Op, must bool) error {
+			i := 0
+			for _, op := range ops {
+				switch op.Kind {
+				case "w":
+					n := op.N
+					if i+n > len(rs) {
+						n = len(rs) - i
+					}
+					if _, err := gw.Write(rs[i : i+n]); err != nil {
+						return err
+					}
+					i += n
+				case "f":
+					if err := gw.Flush(); err != nil {
+						return err
+					}
+				}
+			}
+			if i < len(rs) {
+				if _, err := gw.Write(rs[i:]); err != nil {
+					return err
+				}
+			}
+			return nil
+		}
+		perr := drive(prior.([]T), priorOps, false)
+		if priorMode != "abandoned" {
+			if cerr := gw.Close(); perr == nil {
+				perr = cerr
+			}
+		}
+		if perr != nil && priorMode != "failed" {
+			return nil, &WriteError{fmt.Errorf("prior file: %w", perr)}
+		}
+		var second bytes.Buffer
+		gw.Reset(&second)
+		if err := drive(rows.([]T), ops, true); err != nil {
+			return nil, &WriteError{err}
+		}
+		if err := gw.Close(); err != nil {
+			return nil, &WriteError{err}
+		}
+		return second.Bytes(), nil
 	}
 	e.AnyWrite = func(w io.Writer, rows any, opts []parquet.WriterOption) error {
 		rs := rows.([]T)
@@ -413,6 +469,31 @@ func register[T any](name string) {
 		}
 	}
 	Catalogue = append(Catalogue, e)
+}
+
+// FailingWriter accepts Limit bytes then fails (short count + error, as the
+// io.Writer contract requires).
+type FailingWriter struct {
+	W     io.Writer
+	Limit int
+	N     int
+}
+
+var ErrSink = errors.New("verif: injected sink failure")
+
+func (f *FailingWriter) Write(p []byte) (int, error) {
+	room := f.Limit - f.N
+	if room >= len(p) {
+		n, err := f.W.Write(p)
+		f.N += n
+		return n, err
+	}
+	if room < 0 {
+		room = 0
+	}
+	n, _ := f.W.Write(p[:room])
+	f.N += n
+	return n, ErrSink
 }
 
 // WriteError marks an error returned by the library's write path.
